@@ -51,7 +51,7 @@ func (check) Cases(tier string) int {
 }
 
 func (check) Rule() string {
-	return "one JSON document per case: top-level object (1 in 12: list) of depth <= 4 over a pool of plain keys, odd keys (spaces, unicode, punctuation, YAML look-alikes such as true, ~, #c) and, in 1 document of 8, keys containing '.'; leaves: strings over a wide alphabet (ASCII punctuation, control characters, DEL/C1, NEL, NBSP, LS/PS, BOM, U+FFFE/FFFF, Latin-1, combining marks, CJK, non-BMP) or from a pool of look-alikes (true, null, ~, 1e3, 0x1F, 2001-12-14, '# c', '[1,2]', triple quotes ...), integers within +-2^53, floats (fractions, tiny, huge, integral, -0), booleans, nulls, {} and []; lists of one leaf kind, of objects, or mixed; half of the object documents carry top-level string variables (plain words, or wide-alphabet text for pure references) that other strings reference as ${name} -- pure, or spliced behind a literal prefix, one or two names per string -- plus $$ escapes, $${x} and lone $; rendered compact / spaced / indented 1-8 / loose (random blanks) with sorted or shuffled keys, floats in g/e/f/f.0 form, and only the escapes all three grammars share (backslash-quote, double backslash, \\b \\f \\n \\r \\t, \\uXXXX for BMP). The document is used only if yaml.v2, encoding/json and hjson-go decode it to the same data as the generating tree (else prefilter_rejected). It is loaded by the three NewConfig and the three NewConfigWithFile functions under none / PathSep / VarExp / PathSep+VarExp / VarExp+PathSep (PathSep skipped when a key contains '.'), observed by Unpack into map, slice and two types fitted to the document with reflect.StructOf (struct / *struct with config tags, map[string]T, []T, [N]T, int64 int int32 uint64 uint float64 string bool, pointers to them, interface{}), and compared three-way, with the tree (VarExp: with the expanded tree), and file against memory. Where the document nests objects, a second spelling with dictionary (and some list) edges folded at random depth into dotted keys (server.tls.port, l.0, l.1) is loaded too under every PathSep combination and must mean exactly the same. Missing files must give an error and no config. Then two faults (23 kinds: conversions, overflow, negative into unsigned, min/max/positive/nonzero/required validators, and faults reported at containers -- object or list for a primitive, wrong array length, a failing struct Validate(), nonzero/required on empty lists and objects, a required field whose key is absent below an object, a String getter for an absent key through Child handles) are grafted at random paths of 1-5 keys/indices; each is loaded once without and once with PathSep, the latter with keys folded preferably along the path so that the containers exist only implicitly; the six loaders' errors must name the full dotted path as a delimited token, the file loaders' errors must contain the file name (or its base name), the in-memory ones must not. One more fault per case is reported against the TOP-LEVEL config of a document whose top level has no named keys ({}, [] or a list of generated elements): a required key that is absent, a String getter for an absent key, the top level unpacked into an array of another length or into a struct whose Validate() fails; the file loaders' errors must name the file there too. Finally one option slice with spare capacity (make(n, n+k) with or without sentinel options behind len, or grown by append; the combination's options possibly between options restating the defaults) is reused for a sequence of 3-6 loads drawn from the six loader functions: after every call the caller's backing array up to cap must be bit-identical, and every load must unpack (generic, typed, error text of a missing required key) exactly like the same load done alone with a fresh option list. One fault of a VarExp document per case (holder object at depth 0-3, below the root only with PathSep): a reference cycle of 1-3 settings, a missing reference, a reference through a primitive (pure or spliced), unpacked into a generic target and into a typed target along the path (string, interface{}, int64, *string): raised by all six loads or none, file errors name the file, one of the settings involved is named; or a spliced string that parses into a list / object with the fault at one of ITS elements (list element, object entry, nested element), whose error must name the exact path and the file. Finally a document of 4-7 settings meeting deliberately NON-matching but convertible targets (integers 0/1, small, 7+ digits, integral / fractional floats, numeric / boolean / other strings, booleans -- scalar, in lists, in maps -- into bool, int64, int8, uint64, uint8, float64, float32, string, *bool, *string, time.Duration; with VarExp also pure references to and splices of these scalars into interface{} / string): the outcome (error, or success with this rendering) must be the same for all three front-ends and for file and memory; no expectation is involved. The non-matching pairings also cover the negative zero (an integer literal for YAML, the float -0 for the others), the low-level getter of the target's kind next to every scalar Unpack, and numbers meeting min= / max= validators whose parameter is negative, fractional, hexadecimal, with exponent, leading zero or explicit sign, on int64 / uint64 / float64 fields and on interface{} fields (which hold whatever number type the front-end delivered). The documents without top-level keys include the single word null, loaded by the front-ends whose raw decoder reads it. One more document per case (PathSep only) spells a list of 2-5 elements by dotted index keys with gaps (below 0-2 keys, nested or dotted; integers or objects): it must mean the list with nulls in the gaps for all three front-ends, and errors about the first element nobody wrote (min=1 on the list, a required field below it, an Int/Bool/Uint/Float getter) must name its path and the file. One document per case is valid in all three syntaxes but REFUSED by go-ucfg under the options of the load: one setting spelled twice in one object (a primitive and a dotted child / grandchild, the same leaf nested and dotted one or two levels down, a list element and its dotted index) under PathSep, or a malformed expansion under VarExp, in an object at depth 0-3 (also inside list elements): all six loads must agree on refusing, return no config, the file loaders' load errors must name the file, the in-memory ones none, and one of the settings involved must be named (relative to the object it sits in is enough); without the option the same bytes must load everywhere. One document per case of 4-7 settings unpacked into time.Duration, *time.Duration, []time.Duration, map[string]time.Duration and a named duration type: whole numbers of seconds of every magnitude up to the limit of +-9223372036 s (random low bits, odd values, at and beyond the limit, round numbers) written as integers (an int for YAML, a float64 for JSON / HJSON) or as floats, fractional seconds (tiny, everyday, large with binary fractions), duration strings (also at the limits of time.Duration) and strings that are none, with VarExp also pure references to them: same outcome and same nanoseconds from all six loads; inside the range a whole number n means exactly n*time.Second, a string what time.ParseDuration says, a fraction f*1e9 ns within 1 ns. Non-trivial = at least one nested container and at least 3 leaves; distinct = distinct document text."
+	return "one JSON document per case: top-level object (1 in 12: list) of depth <= 4 over a pool of plain keys, odd keys (spaces, unicode, punctuation, YAML look-alikes such as true, ~, #c) and, in 1 document of 8, keys containing '.'; leaves: strings over a wide alphabet (ASCII punctuation, control characters, DEL/C1, NEL, NBSP, LS/PS, BOM, U+FFFE/FFFF, Latin-1, combining marks, CJK, non-BMP) or from a pool of look-alikes (true, null, ~, 1e3, 0x1F, 2001-12-14, '# c', '[1,2]', triple quotes ...), integers within +-2^53, floats (fractions, tiny, huge, integral, -0), booleans, nulls, {} and []; lists of one leaf kind, of objects, or mixed; half of the object documents carry top-level string variables (plain words, or wide-alphabet text for pure references) that other strings reference as ${name} -- pure, or spliced behind a literal prefix, one or two names per string -- plus $$ escapes, $${x} and lone $; rendered compact / spaced / indented 1-8 / loose (random blanks) with sorted or shuffled keys, floats in g/e/f/f.0 form, and only the escapes all three grammars share (backslash-quote, double backslash, \\b \\f \\n \\r \\t, \\uXXXX for BMP). The document is used only if yaml.v2, encoding/json and hjson-go decode it to the same data as the generating tree (else prefilter_rejected). It is loaded by the three NewConfig and the three NewConfigWithFile functions under none / PathSep / VarExp / PathSep+VarExp / VarExp+PathSep (PathSep skipped when a key contains '.'), observed by Unpack into map, slice and two types fitted to the document with reflect.StructOf (struct / *struct with config tags, map[string]T, []T, [N]T, int64 int int32 uint64 uint float64 string bool, pointers to them, interface{}), and compared three-way, with the tree (VarExp: with the expanded tree), and file against memory. Where the document nests objects, a second spelling with dictionary (and some list) edges folded at random depth into dotted keys (server.tls.port, l.0, l.1) is loaded too under every PathSep combination and must mean exactly the same. Missing files must give an error and no config. Then two faults (23 kinds: conversions, overflow, negative into unsigned, min/max/positive/nonzero/required validators, and faults reported at containers -- object or list for a primitive, wrong array length, a failing struct Validate(), nonzero/required on empty lists and objects, a required field whose key is absent below an object, a String getter for an absent key through Child handles) are grafted at random paths of 1-5 keys/indices; each is loaded once without and once with PathSep, the latter with keys folded preferably along the path so that the containers exist only implicitly; the six loaders' errors must name the full dotted path as a delimited token, the file loaders' errors must contain the file name (or its base name), the in-memory ones must not. One more fault per case is reported against the TOP-LEVEL config of a document whose top level has no named keys ({}, [] or a list of generated elements): a required key that is absent, a String getter for an absent key, the top level unpacked into an array of another length or into a struct whose Validate() fails; the file loaders' errors must name the file there too. Finally one option slice with spare capacity (make(n, n+k) with or without sentinel options behind len, or grown by append; the combination's options possibly between options restating the defaults) is reused for a sequence of 3-6 loads drawn from the six loader functions: after every call the caller's backing array up to cap must be bit-identical, and every load must unpack (generic, typed, error text of a missing required key) exactly like the same load done alone with a fresh option list. One fault of a VarExp document per case (holder object at depth 0-3, below the root only with PathSep): a reference cycle of 1-3 settings, a missing reference, a reference through a primitive (pure or spliced), unpacked into a generic target and into a typed target along the path (string, interface{}, int64, *string): raised by all six loads or none, file errors name the file, one of the settings involved is named; or a spliced string that parses into a list / object with the fault at one of ITS elements (list element, object entry, nested element), whose error must name the exact path and the file. Finally a document of 4-7 settings meeting deliberately NON-matching but convertible targets (integers 0/1, small, 7+ digits, integral / fractional floats, numeric / boolean / other strings, booleans -- scalar, in lists, in maps -- into bool, int64, int8, uint64, uint8, float64, float32, string, *bool, *string, time.Duration; with VarExp also pure references to and splices of these scalars into interface{} / string): the outcome (error, or success with this rendering) must be the same for all three front-ends and for file and memory; no expectation is involved. The non-matching pairings also cover the negative zero (an integer literal for YAML, the float -0 for the others), the low-level getter of the target's kind next to every scalar Unpack, and numbers meeting min= / max= validators whose parameter is negative, fractional, hexadecimal, with exponent, leading zero or explicit sign, on int64 / uint64 / float64 fields and on interface{} fields (which hold whatever number type the front-end delivered). The documents without top-level keys include the single word null, loaded by the front-ends whose raw decoder reads it. One more document per case (PathSep only) spells a list of 2-5 elements by dotted index keys with gaps (below 0-2 keys, nested or dotted; integers or objects): it must mean the list with nulls in the gaps for all three front-ends, and errors about the first element nobody wrote (min=1 on the list, a required field below it, an Int/Bool/Uint/Float getter) must name its path and the file. One document per case is valid in all three syntaxes but REFUSED by go-ucfg under the options of the load: one setting spelled twice in one object (a primitive and a dotted child / grandchild, the same leaf nested and dotted one or two levels down, a list element and its dotted index) under PathSep, or a malformed expansion under VarExp, in an object at depth 0-3 (also inside list elements): all six loads must agree on refusing, return no config, the file loaders' load errors must name the file, the in-memory ones none, and one of the settings involved must be named (relative to the object it sits in is enough); without the option the same bytes must load everywhere. One document per case of 4-7 settings unpacked into time.Duration, *time.Duration, []time.Duration, map[string]time.Duration and a named duration type: whole numbers of seconds of every magnitude up to the limit of +-9223372036 s (random low bits, odd values, at and beyond the limit, round numbers) written as integers (an int for YAML, a float64 for JSON / HJSON) or as floats, fractional seconds (tiny, everyday, large with binary fractions), duration strings (also at the limits of time.Duration) and strings that are none, with VarExp also pure references to them: same outcome and same nanoseconds from all six loads; inside the range a whole number n means exactly n*time.Second, a string what time.ParseDuration says, a fraction f*1e9 ns within 1 ns. One document per case of 5-8 settings (plus, with VarExp, pure references to them) meeting fields tagged validate:required / nonzero / positive of type interface{}, a typed field matching the value, a pointer to it, *interface{} or a foreign typed field, at top level or one object down: half of the values are the zero numbers 0, 0.0, -0 (an int for YAML, a float64 for JSON / HJSON), the others small positive / negative numbers, empty and non-empty strings, lists, objects (also holding only zeros), null and booleans: all six loads must give the same verdict and, where they accept, the same data; no expectation is involved. Non-trivial = at least one nested container and at least 3 leaves; distinct = distinct document text."
 }
 
 func (check) Assumptions() []string {
@@ -65,6 +65,7 @@ func (check) Assumptions() []string {
 		"func values of the option slice are compared as machine words (unsafe); the sentinel options behind len are never meant to be read by a correct loader",
 		"a number meeting a time.Duration is a number of seconds (README, reifyDuration's contract in C03); beyond +-9223372036 s, for strings time.ParseDuration refuses, for the named duration type (by reflection an int64) and for references only agreement between the front-ends is demanded; fractional seconds may be off by 1 ns (truncation)",
 		"cross-type pairings are compared between the front-ends only (same outcome class and same data), never with an expectation; for reference cycles any of the settings of the cycle may be named",
+		"what a value-sensitive validator (required, nonzero, positive) makes of a value is C14's business; here only that its verdict and the accepted data do not depend on the syntax the document was read in (an interface{} field holds an int64 from YAML where JSON / HJSON deliver a float64) nor on file vs memory",
 		"a document the raw decoder of a front-end does not read (hjson-go fails on a top-level null) is that decoder's business: the other front-ends are still checked with it",
 		"not generated (other properties): names with thousands of dotted segments (nesting limit, C07); a dotted key that passes through a setting holding a reference or is spelled both nested and dotted (order dependence at load time, C09); which of several faulty settings of one document is reported",
 		"errors raised AT load are about settings of the file as well; whether a colliding document has to be refused is C05/C09's business (if all six loads accept it the case is only counted), and a load error may name the path relative to the object being built",
@@ -1519,6 +1520,7 @@ func (check) Run(seed int64, tier string, idx int, verbose bool) harness.Result 
 	refusedLoadPhase(res, r, dir, stem, verbose)
 	// own random stream: the earlier phases keep their draws
 	durationPhase(res, rand.New(rand.NewSource(harness.Mix(seed, "C18/duration", idx))), dir, stem, verbose)
+	validatorPhase(res, rand.New(rand.NewSource(harness.Mix(seed, "C18/value-sensitive-validators", idx))), dir, stem, verbose)
 	return res.Done()
 }
 
